@@ -209,20 +209,20 @@ Section Proofs.
 
     Lemma phi_src_fix_same : forall a, phi_args_ok nN a = true -> phi_src (map fixo a) nN = phi_src a sbN.
     Proof.
-      fix IH 1. intros [|[z|x|l] [|v a]] H; cbn in *; try discriminate; try reflexivity.
+      fix IH 1. intros [|[z|x|l] [|v a]] H; cbn [phi_args_ok phi_src map fixo] in H |- *; try discriminate; try reflexivity.
       apply andb_prop in H. destruct H as [H Hr]. apply andb_prop in H. destruct H as [Hl Hv]. apply N.ltb_lt in Hl.
-      destruct (N.eqb_spec l sbN) as [->|Ne].
-      - rewrite N.eqb_refl. destruct v; try discriminate; reflexivity.
-      - cbn. replace (N.eqb l nN) with false by (symmetry; apply N.eqb_neq; lia). apply IH. exact Hr.
+      destruct (N.eqb l sbN) eqn:E.
+      - cbn [phi_src]. rewrite N.eqb_refl. destruct v; try discriminate; reflexivity.
+      - cbn [phi_src]. replace (N.eqb l nN) with false by (symmetry; apply N.eqb_neq; lia). apply IH. exact Hr.
     Qed.
     Lemma phi_src_fix_other : forall a p, phi_args_ok nN a = true -> p <> sbN -> p <> nN -> phi_src (map fixo a) p = phi_src a p.
     Proof.
-      fix IH 1. intros [|[z|x|l] [|v a]] p H N1 N2; cbn in *; try discriminate; try reflexivity.
+      fix IH 1. intros [|[z|x|l] [|v a]] p H N1 N2; cbn [phi_args_ok phi_src map fixo] in H |- *; try discriminate; try reflexivity.
       apply andb_prop in H. destruct H as [H Hr]. apply andb_prop in H. destruct H as [Hl Hv].
-      destruct (N.eqb_spec l sbN) as [->|Ne].
-      - cbn. replace (N.eqb nN p) with false by (symmetry; apply N.eqb_neq; congruence).
+      destruct (N.eqb l sbN) eqn:E.
+      - apply N.eqb_eq in E. subst l. cbn [phi_src]. replace (N.eqb nN p) with false by (symmetry; apply N.eqb_neq; congruence).
         replace (N.eqb sbN p) with false by (symmetry; apply N.eqb_neq; congruence). apply IH; auto.
-      - cbn. destruct (N.eqb l p); [destruct v; try discriminate; reflexivity|]. apply IH; auto.
+      - cbn [phi_src]. destruct (N.eqb l p); [destruct v; try discriminate; reflexivity|]. apply IH; auto.
     Qed.
 
     Lemma fix_is_map : forall i, is_phi i = true -> fix_phi_inst sbN nN i = mkI (i_op i) (map fixo (i_args i)) (i_outs i).
@@ -261,9 +261,169 @@ Section Proofs.
       lead_phis (firstn k blk ++ [y]) = lead_phis blk /\ List.length (lead_phis blk) <= k.
     Proof.
       induction blk as [|a blk IH]; intros k x y E Hx Hy; destruct k; cbn in E; try discriminate.
-      - inversion E; subst. cbn. rewrite Hx, Hy. split; [reflexivity|lia].
-      - cbn [firstn app lead_phis]. destruct (is_phi a); [|split; [reflexivity|cbn; lia]].
-        destruct (IH k x y E Hx Hy) as [A Bd]. rewrite A. split; [reflexivity|cbn; lia].
+      - inversion E; subst. cbn [firstn app lead_phis]. rewrite Hx, Hy. split; [reflexivity|cbn [List.length]; lia].
+      - cbn [firstn app lead_phis]. destruct (is_phi a) eqn:Q.
+        + destruct (IH k x y E Hx Hy) as [A Bd]. rewrite A. split; [reflexivity|]. cbn [List.length]. lia.
+        + split; [reflexivity|]. cbn [List.length]. lia.
+    Qed.
+
+    Lemma in_removelast : forall (blk : block) pc i, nth_error blk pc = Some i -> S pc < List.length blk -> In i (removelast blk).
+    Proof.
+      induction blk as [|a blk IH]; intros pc i E L; cbn in L; [lia|]. destruct blk as [|a2 blk]; [cbn in L; lia|].
+      destruct pc; cbn in E.
+      - inversion E; subst. left. reflexivity.
+      - right. apply (IH pc i E). cbn in *. lia.
+    Qed.
+    Lemma rev_head_last : forall (l : block) k x, nth_error l k = Some x -> S k = List.length l -> exists t, rev l = x :: t.
+    Proof.
+      induction l as [|a l IH]; intros k x E L; cbn in L; [lia|]. destruct k; cbn in E.
+      - inversion E; subst. destruct l; [|cbn in L; lia]. exists []. reflexivity.
+      - destruct (IH k x E ltac:(lia)) as [t Ht]. cbn [rev]. rewrite Ht. exists (t ++ [a]). reflexivity.
+    Qed.
+
+    Definition is_jump (i : inst) : bool := is_op "jmp" i || is_op "jnz" i || is_op "djmp" i.
+
+    Lemma ctl_last : forall b pc i, nth_error (nth_block F b) pc = Some i -> is_ctl i = true -> S pc = List.length (nth_block F b).
+    Proof.
+      intros b pc i E C. pose proof (nth_error_lt _ _ _ _ E) as L. destruct (Nat.eq_dec (S pc) (List.length (nth_block F b))); [auto|].
+      exfalso. pose proof (block_ok_F b (block_lt _ _ _ E)) as K. unfold block_ok in K.
+      apply andb_prop in K. destruct K as [K _]. apply andb_prop in K. destruct K as [_ K]. rewrite forallb_forall in K.
+      specialize (K i (in_removelast _ _ _ E ltac:(lia))). rewrite C in K. discriminate.
+    Qed.
+
+    Lemma enter_pm : forall b pc i l e e' e1 pc1,
+      instr_at P cf b pc = Some i -> is_jump i = true -> In (OLab l) (i_args i) -> N.to_nat l < n ->
+      e <<= e' -> enter (nth_block F (N.to_nat l)) b e = Some (e1, pc1) ->
+      exists e1', enter (nth_block F' (N.to_nat l)) (pmb b pc) e' = Some (e1', pc1) /\ e1 <<= e1' /\ in_post (N.to_nat l) pc1 = false.
+    Proof.
+      intros b pc i l e e' e1 pc1 E J Il Ll Hext En. unfold instr_at in E. rewrite HF in E.
+      assert (C : is_ctl i = true) by (unfold is_ctl; unfold is_jump in J; destruct (is_op "jmp" i); destruct (is_op "jnz" i); destruct (is_op "djmp" i); auto; discriminate).
+      pose proof (ctl_last _ _ _ E C) as Last. pose proof (block_lt _ _ _ E) as Hb.
+      set (L := N.to_nat l) in *.
+      (* leading phis of the target in F' *)
+      set (X := if Nat.eqb L sb then pre ++ [mkI "jmp" [OLab base] []] else nth_block F L).
+      assert (LX : lead_phis X = lead_phis (nth_block F L) /\ (L = sb -> List.length (lead_phis (nth_block F L)) <= idx)).
+      { unfold X. destruct (Nat.eqb_spec L sb) as [->|Nl].
+        - destruct (lead_pre B idx _ (mkI "jmp" [OLab base] []) Hinv eq_refl eq_refl) as [A Bd]. split; [exact A|intros _; exact Bd].
+        - split; [reflexivity|intros; contradiction]. }
+      destruct LX as [LX Lidx].
+      unfold ISyn.enter in En. destruct (phi_vals (lead_phis (nth_block F L)) (N.of_nat b) e) as [vs|] eqn:Pv; [|discriminate].
+      inversion En; subst e1 pc1. clear En.
+      pose proof (phi_vals_ext _ _ _ _ _ _ _ Hext Pv) as Pv'.
+      assert (Post : in_post L (List.length (lead_phis (nth_block F L))) = false).
+      { unfold in_post. destruct (Nat.eqb_spec L sb) as [Es|]; [|reflexivity]. cbn. apply Nat.ltb_ge. auto. }
+      assert (Goal : phi_vals (lead_phis (nth_block F' L)) (N.of_nat (pmb b pc)) e' = Some vs /\
+                     List.length (lead_phis (nth_block F' L)) = List.length (lead_phis (nth_block F L))).
+      { rewrite F'_low by auto. unfold blk1. fold X. unfold fixb, pmb.
+        destruct (in_post b pc) eqn:IP.
+        - (* the jump is in the moved tail: the target is a successor, its phis were fixed *)
+          unfold in_post in IP. apply andb_prop in IP. destruct IP as [Eb Lt]. apply Nat.eqb_eq in Eb. subst b. apply Nat.ltb_lt in Lt.
+          assert (Sx : existsb (N.eqb (N.of_nat L)) succs = true).
+          { unfold succs, block_targets. fold B in E, Last.
+            assert (Ep : nth_error post (pc - idx - 1) = Some i) by (unfold post; rewrite nth_error_skipn'; replace (S idx + (pc - idx - 1)) with pc by lia; exact E).
+            destruct (rev_head_last post (pc - idx - 1) i Ep) as [t Ht].
+            { unfold post. rewrite skipn_length. lia. }
+            rewrite Ht. apply existsb_exists. exists l. split; [|unfold L; rewrite N2Nat.id; apply N.eqb_refl].
+            apply in_flat_map. exists (OLab l). split; [exact Il|left; reflexivity]. }
+          rewrite Sx, lead_phis_map_fix, LX, map_length. split; [|reflexivity].
+          rewrite (phi_vals_fix _ sbN nN e'); [exact Pv'| |left; split; [unfold sbN; reflexivity|reflexivity]].
+          intros j Hj. apply (lead_phis_ok L); auto.
+        - assert (Nb : b <> sb).
+          { intros ->. unfold in_post in IP. rewrite Nat.eqb_refl in IP. cbn in IP. apply Nat.ltb_ge in IP.
+            fold B in E, Last. pose proof (nth_error_lt _ _ _ _ Hinv). destruct (Nat.eq_dec pc idx) as [->|]; [|lia].
+            rewrite Hinv in E. inversion E; subst i. discriminate. }
+          destruct (existsb (N.eqb (N.of_nat L)) succs).
+          + rewrite lead_phis_map_fix, LX, map_length. split; [|reflexivity].
+            rewrite (phi_vals_fix _ (N.of_nat b) (N.of_nat b) e'); [exact Pv'| |right; split; [reflexivity|split; unfold sbN, nN; lia]].
+            intros j Hj. apply (lead_phis_ok L); auto.
+          + rewrite LX. split; [exact Pv'|reflexivity]. }
+      destruct Goal as [G1 G2]. unfold ISyn.enter. rewrite G1, G2. eexists. split; [reflexivity|]. split; [apply fold_upd_ext; exact Hext|exact Post].
+    Qed.
+
+    (* ---------- the cloned callee ---------- *)
+    Hypothesis HokG : func_ok G = true.
+    Hypothesis HcalleeG : callee_ok G (List.length outs) = true.
+    Hypothesis HnolabG : no_block_label_values G = true.
+    Hypothesis Hbig : (nN + N.of_nat nG + 2 < FB)%N.
+    Hypothesis Hrtot : forall x, In x (func_vars G) -> exists y, rget r x = Some y.
+    Hypothesis Hrinj : nodupN (map snd r) = true.
+    Hypothesis Hrfresh : forall y, In y (map snd r) -> ~ In y (func_vars F).
+    Let VG := func_vars G.
+    Let VF := func_vars F.
+    Let nGN := N.of_nat nG.
+    Notation rn := (ren r).
+
+    Lemma memN_In : forall x l, memN x l = true <-> In x l.
+    Proof.
+      intros x l. unfold memN. rewrite existsb_exists. split.
+      - intros [y [I E]]. apply N.eqb_eq in E. subst. exact I.
+      - intros I. exists x. split; [exact I|apply N.eqb_refl].
+    Qed.
+    Lemma rget_in : forall (q : rho) x y, rget q x = Some y -> In y (map snd q).
+    Proof.
+      induction q as [|[a b] q IH]; intros x y E; cbn in E; [discriminate|]. destruct (N.eqb a x); [inversion E; subst; left; reflexivity|].
+      right. eapply IH; eauto.
+    Qed.
+    Lemma rget_inj : forall (q : rho) x x' y, nodupN (map snd q) = true -> rget q x = Some y -> rget q x' = Some y -> x = x'.
+    Proof.
+      induction q as [|[a b] q IH]; intros x x' y ND E E'; cbn in *; [discriminate|].
+      apply andb_prop in ND. destruct ND as [Nm ND]. apply negb_true_iff in Nm.
+      destruct (N.eqb_spec a x); destruct (N.eqb_spec a x').
+      - congruence.
+      - inversion E; subst. exfalso. apply rget_in in E'. apply memN_In in E'. congruence.
+      - inversion E'; subst. exfalso. apply rget_in in E. apply memN_In in E. congruence.
+      - eapply IH; eauto.
+    Qed.
+    Lemma rn_inj : forall x x', In x VG -> In x' VG -> rn x = rn x' -> x = x'.
+    Proof.
+      intros x x' I I' E. destruct (Hrtot x I) as [y Hy]. destruct (Hrtot x' I') as [y' Hy'].
+      unfold ren in E. rewrite Hy, Hy' in E. subst y'. eapply rget_inj; eauto.
+    Qed.
+    Lemma rn_fresh : forall x, In x VG -> ~ In (rn x) VF.
+    Proof. intros x I. destruct (Hrtot x I) as [y Hy]. unfold ren. rewrite Hy. apply Hrfresh. eapply rget_in; eauto. Qed.
+
+    (* relation between the callee frame (eg), the suspended caller frame (ec) and the merged frame (e2) *)
+    Definition Rel (eg ec e2 : env) : Prop := (forall x v, eg x = Some v -> e2 (rn x) = Some v) /\ ec <<= e2.
+
+    Definition olab_ok (o : operand) : Prop := match o with OLab l => (FB <= l)%N | _ => True end.
+    Lemma ren_op_nolab : forall o, olab_ok o -> match o with OLab l => ren_op r base nGN o = OLab l | _ => True end.
+    Proof. intros [z|x|l] H; cbn in *; auto. replace (N.ltb l nGN) with false; [reflexivity|]. symmetry. apply N.ltb_ge. unfold nGN. lia. Qed.
+
+    Lemma oval_ren : forall eg ec e2 o v, Rel eg ec e2 -> olab_ok o -> oval eg o = Some v -> oval e2 (ren_op r base nGN o) = Some v.
+    Proof.
+      intros eg ec e2 [z|x|l] v [R1 R2] Ho E; cbn [ISyn.oval ren_op] in *; auto.
+      pose proof (ren_op_nolab (OLab l) Ho) as K. cbn in K. cbn [ren_op] in K. rewrite K. exact E.
+    Qed.
+    Lemma ovals_ren : forall eg ec e2 l vs, Rel eg ec e2 -> Forall olab_ok l -> ovals eg l = Some vs ->
+      ovals e2 (map (ren_op r base nGN) l) = Some vs.
+    Proof.
+      induction l as [|o l IH]; intros vs HR Fo E; cbn [ISyn.ovals map] in *; [exact E|]. inversion Fo; subst.
+      destruct (oval eg o) as [v|] eqn:Ov; [|discriminate]. destruct (ovals eg l) as [vs'|] eqn:Ovs; [|discriminate].
+      rewrite (oval_ren _ _ _ _ _ HR H1 Ov), (IH _ HR H2 eq_refl). exact E.
+    Qed.
+
+    Lemma Rel_upd : forall eg ec e2 o v, Rel eg ec e2 -> dom_in eg VG -> dom_in ec VF -> In o VG ->
+      Rel (upd eg o v) ec (upd e2 (rn o) v).
+    Proof.
+      intros eg ec e2 o v [R1 R2] Dg Dc Io. split.
+      - intros x w. unfold upd. destruct (N.eqb_spec x o) as [->|Nx].
+        + rewrite N.eqb_refl. auto.
+        + intros E. destruct (N.eqb_spec (rn x) (rn o)) as [Er|_]; [exfalso; apply Nx; apply rn_inj; eauto|]. apply R1. exact E.
+      - intros y w E. unfold upd. destruct (N.eqb_spec y (rn o)) as [->|_]; [exfalso; apply (rn_fresh o Io); eapply Dc; eauto|]. apply R2. exact E.
+    Qed.
+    Lemma Rel_upd_many : forall os vs eg ec e2 eg1, Rel eg ec e2 -> dom_in eg VG -> dom_in ec VF -> (forall o, In o os -> In o VG) ->
+      upd_many eg os vs = Some eg1 -> exists e21, upd_many e2 (map rn os) vs = Some e21 /\ Rel eg1 ec e21 /\ dom_in eg1 VG.
+    Proof.
+      induction os as [|o os IH]; intros vs eg ec e2 eg1 HR Dg Dc Io U; destruct vs as [|v vs]; cbn [ISyn.upd_many map] in *; try discriminate.
+      - inversion U; subst. eauto.
+      - eapply IH; [| | | |exact U]; [apply Rel_upd; auto|apply dom_upd; auto|auto|auto].
+    Qed.
+    (* an update of a caller variable in the merged frame *)
+    Lemma Rel_upd_caller : forall eg ec e2 x v, Rel eg ec e2 -> dom_in eg VG -> In x VF -> Rel eg (upd ec x v) (upd e2 x v).
+    Proof.
+      intros eg ec e2 x v [R1 R2] Dg Ix. split.
+      - intros y w E. unfold upd. destruct (N.eqb_spec (rn y) x) as [Ey|_]; [exfalso; apply (rn_fresh y); [eapply Dg; eauto|rewrite Ey; exact Ix]|]. apply R1. exact E.
+      - apply ext_upd. exact R2.
     Qed.
   End Inline.
 End Proofs.
